@@ -65,6 +65,7 @@ MkWorld(n, rd, E, F, combo) ==
             k \in F)]]
 
 CombosQ == {<<"A", "exact">>, <<"A", "mixed">>, <<"B", "lower">>, <<"B", "mixed2">>}
+CombosQ2 == {<<"A", "mixed">>, <<"B", "mixed2">>}
 CombosAll == {"A", "B"} \X {"exact", "lower", "under", "mixed", "mixed2"}
 CombosExact == {<<"A", "exact">>}
 CombosB == {<<"B", "mixed">>}
